@@ -14,7 +14,7 @@
     Attribute, Get/Register/Import/Export payloads), so whole messages are covered by the
     correspondence run and not yet by the theorem: see [C01_full] and DESIGN.md. *)
 From Coq Require Import ZArith List Bool String.
-From KV Require Import Base Wire Cursor BinCursorProofs Schema SchemaSem FaithfulProofs Roundtrip RoundtripProofs KmipCodec KmipRoundtrip.
+From KV Require Import Base Wire Cursor BinCursorProofs Schema SchemaSem FaithfulProofs Roundtrip RoundtripProofs RoundtripCustoms KmipCodec KmipRoundtrip.
 From KVGen Require Import KmipSchema.
 Import ListNotations.
 Open Scope Z_scope.
@@ -31,17 +31,17 @@ Print Assumptions C01_binary_cursor_law.
     a forest faithful to what the encoder wrote returns the value, consumes exactly its items
     ([rest] is left), ends in the encoder's version state; each item carries the tag asked for. *)
 Theorem C01_struct_roundtrip :
-  forall (S : schema) OPS ATTRS OBJS (R : Type) (F : rawfmt R) fe st t tag v items st' sc,
-  enc_ty S fe st t tag v = Ok (items, st') -> conf_ty S fe st t tag v = Some sc ->
+  forall (S : schema) OPS ATTRS OBJS (R : Type) (F : rawfmt R) fe fc st t tag v items st' sc,
+  enc_ty S fe st t tag v = Ok (items, st') -> conf_ty S OPS ATTRS OBJS fc st t tag v = Some sc ->
   sc = st' /\ Forall (fun i => itag i = tag) items /\
   forall (es rest : list (relem R)) fd, faithful F items es ->
     (lookahead t = true -> c_tag (rest, false) <> tag) ->
     (fe + 2 * items_size items + 2 <= fd)%nat ->
     dec_ty S OPS ATTRS OBJS F fd st t tag ((es ++ rest)%list, false) = Ok (v, (rest, false), st').
 Proof.
-  intros S OPS ATTRS OBJS R F fe st t tag v items st' sc He Hc.
+  intros S OPS ATTRS OBJS R F fe fc st t tag v items st' sc He Hc.
   destruct (rt_all S OPS ATTRS OBJS F fe) as (Pt & _ & _).
-  destruct (Pt _ _ _ _ _ _ _ He Hc) as (H1 & H2 & _ & _ & H3). split; [exact H1 | split; [exact H2 | exact H3]].
+  destruct (Pt _ _ _ _ _ _ _ _ He Hc) as (H1 & H2 & _ & _ & H3). split; [exact H1 | split; [exact H2 | exact H3]].
 Qed.
 Print Assumptions C01_struct_roundtrip.
 
@@ -49,8 +49,8 @@ Print Assumptions C01_struct_roundtrip.
     byte consumed.  (Re-encoding the decoded value gives the identical bytes because it IS
     the original value and the encoder is a function.) *)
 Theorem C01_roundtrip_partial :
-  forall (S : schema) OPS ATTRS OBJS fe st t tag v items st' sc,
-  enc_ty S fe st t tag v = Ok (items, st') -> conf_ty S fe st t tag v = Some sc ->
+  forall (S : schema) OPS ATTRS OBJS fe fc st t tag v items st' sc,
+  enc_ty S fe st t tag v = Ok (items, st') -> conf_ty S OPS ATTRS OBJS fc st t tag v = Some sc ->
   forallb item_ok items = true -> forallb item_small items = true -> lookahead t = false ->
   exists c, bin_cursor (wire_enc_list items) = Ok c /\
     forall fd, (fe + 2 * items_size items + 2 <= fd)%nat ->
@@ -67,7 +67,7 @@ Print Assumptions C01_kmip_schema_unambiguous.
 (** The full statement, for whole messages (not yet proved for the hand-written codecs). *)
 Definition C01_full : Prop :=
   forall root v bytes, (root = "kmip.RequestMessage" \/ root = "kmip.ResponseMessage")%string ->
-    kmip_marshal root v = Ok bytes -> (exists sc, conf_ty kmip_schema FUEL None (TNamed root) 0 v = Some sc) ->
+    kmip_marshal root v = Ok bytes -> (exists sc, conf_ty kmip_schema kmip_ops kmip_attrs kmip_objs FUEL None (TNamed root) 0 v = Some sc) ->
     kmip_unmarshal root bytes = Ok v.
 
 (** Non-vacuity: a real request header (version 1.4, gated correlation value, optional
@@ -76,7 +76,7 @@ Definition ex_header : value :=
   VStruct "kmip.RequestHeader" [VStruct "kmip.ProtocolVersion" [VInt 1; VInt 4]; VInt 1024; VStr [99; 118]; VStr [];
     VPtr (VBool true); VNil; VList [VInt 1; VInt 2]; VNil; VInt 2; VNil; VPtr (VInt 1700000000); VInt 3].
 Example C01_example :
-  (exists sc, conf_ty kmip_schema 20 None (TNamed "kmip.RequestHeader") 4325495 ex_header = Some sc) /\
+  (exists sc, conf_ty kmip_schema kmip_ops kmip_attrs kmip_objs 20 None (TNamed "kmip.RequestHeader") 4325495 ex_header = Some sc) /\
   (do r <- enc_ty kmip_schema 20 None (TNamed "kmip.RequestHeader") 4325495 ex_header ;;
    do c <- bin_cursor (wire_enc_list (fst r)) ;;
    do d <- dec_ty kmip_schema kmip_ops kmip_attrs kmip_objs bin_fmt 60 None (TNamed "kmip.RequestHeader") 4325495 c ;;
